@@ -32,6 +32,10 @@ func zvSessCfgs() []zvSessCfg {
 		{Name: "ebgp-ipv6-addpath", A: zvPeerOpts{Addr: 9, Hold: 3 * time.Second, IPv6: true, AddPathRX: true}},
 		// an import policy that rewrites an attribute path equality looks at: what is withdrawn on teardown must be the rewritten path
 		{Name: "ebgp-import-sets-localpref", A: zvPeerOpts{Addr: 9, Hold: 3 * time.Second, Import: zvChainSetLocalPref(200)}},
+		// hold time 6 s: the keepalive interval (2 s) is longer than the Established state's 1 s poll, so the hold timer
+		// check really runs (with 3 s the keepalive timer and the poll are due at the same instants, the default schedule
+		// always serves the keepalive timer and the poll is re-armed: the expiry path would never be taken)
+		{Name: "ebgp-hold-6s", A: zvPeerOpts{Addr: 9, Hold: 6 * time.Second}},
 	}
 }
 
